@@ -125,9 +125,14 @@ def run(ctx):
         d12 = i % 20 == 19
         mtext, paths = gen_master(rng, dup=d12)
         master = freephil.parse(input_string=mtext)
+        if i % 50 == 7:
+            # a master that declares no parameter: every name is unknown
+            mtext = rng.choice(["", "s {\n}\n", "s {\n  t {\n  }\n}\n", "!a = 1\n"])
+            master = freephil.parse(input_string=mtext)
+            ctx.count("masters_without_parameters")
         tps = [l.path for l in master.all_definitions()]
         home = rng.choice([None, None] + sorted({p.rsplit(".", 1)[0] for p in tps if "." in p}) + ["a", "zz"])
-        k = rng.random()
+        k = rng.random() if tps else 1.0
         if k < 0.3:
             name = rng.choice(tps)
         elif k < 0.6:
@@ -195,9 +200,17 @@ def check_list(master, home, rng, tps):
 
 
 def oracle(master, tps, home, name, value, res, exc, printed):
+    exp = experts(master)
+    # one parameter per distinct full path (further occurrences of a .multiple definition are the same parameter)
+    seen, tps_, exp_ = set(), [], []
+    for p, e in zip(tps, exp):
+        if p not in seen:
+            seen.add(p)
+            tps_.append(p)
+            exp_.append(e)
+    tps, exp = tps_, exp_
     ranks = [rank(home, name, p) for p in tps]
     best = max([r for r in ranks if r is not None], default=None)
-    exp = experts(master)
     try:
         want_words = [(w.value, w.quote_token) for w in freephil.parse(input_string="x = " + value).objects[0].words]
     except BaseException:
